@@ -363,6 +363,8 @@ for _n in ['gamma', 'rgamma', 'loggamma', 'factorial', 'fac2', 'digamma', 'harmo
       cost=2 if _n in ('barnesg', 'superfac', 'hyperfac') else 1,
       maxprec=400 if _n in ('barnesg', 'superfac', 'hyperfac') else 1200)
 E('gamma', 'b', key='gamma_big', fam='C', tol=8)
+E('gamma', 'P', key='gamma_vhi', fam='C', tol=8, cost=3, maxprec=3700)   # Taylor-coefficient cache above 1000 bits (x1.2 reuse window)
+E('rgamma', 'P', key='rgamma_vhi', fam='C', tol=8, cost=3, maxprec=3700)
 E('gamma', 'N:20,150,1000', key='gamma_int', fam='C', tol=8)
 E('factorial', 'N:150,1000', key='factorial_int', fam='C', tol=8)
 E('loggamma', 'b', key='loggamma_big', fam='C', tol=8)
@@ -404,7 +406,7 @@ E('zeta', 'N:2,60,200', key='zeta_int', fam='D', tol=8)
 E('zeta', 's P', key='hurwitz', fam='D', tol=8, cost=2, maxprec=400)
 E('zeta', 's =1 i:1:2', key='zeta_deriv', fam='D', tol=8, cost=3, maxprec=200)
 E('zeta', lambda r, c: {'t': 'mpc', 'v': [[0, '1', -1], mpf_spec(r, 7, 12, sign=0, maxwidth=53)['v']]},
-  key='zeta_rs', fam='D', tol=10, cost=3, maxprec=200)
+  key='zeta_rs', fam='D', tol=10, cost=2, maxprec=200)      # heights 128..4096: the sieved zeta sum (prime sieve caches)
 E('altzeta', 's', fam='D', tol=8, cost=2)
 E('dirichlet', 's ivec', fam='D', tol=8, cost=2, maxprec=300)
 E('polylog', 'k W', fam='D', tol=8, cost=2)
